@@ -224,7 +224,7 @@ func main() {
 	var cases []kase
 	rep := report{Suite: s.Name, Tier: *tier, Seed: *seed, Rule: s.Rule,
 		OpMix: map[string]int{}, OutMix: map[string]int{}, SizeHist: map[string]int{}, Tags: map[string]int{},
-		KnownFindingHits: map[string]int{}}
+		KnownFindingHits: map[string]int{}, Failures: []failure{}, Samples: [][]string{}}
 	if *replay != "" {
 		ops, err := readCase(*replay)
 		if err != nil {
